@@ -763,6 +763,309 @@ theorem sopX_continual_iff (c : Cfg) (d : XF ℝ) (last loss : Nat → XF ℝ) (
     | succ n ih => simp only [runG, run]; rw [ih]; rfl
   exact ⟨h, by rw [h]; exact sop_continual_iff c _ n⟩
 
+/-! ## pass 10: closed forms for the number of driver iterations; NaN histories -/
+
+/-- **Closed form, losses that always decrease.** If every step decreases the loss by the configured amount and no
+immediate cause (rejection / below tol) ever occurs, and `patience ≥ 1`, every driver loop entered from the constructor
+state performs exactly `max 1 max_steps` controller steps (`optimize`, and `ICP.forward` / `MPC.forward` from any
+stepper state since they reset). -/
+theorem iterations_when_always_decreasing (c : Cfg) (hp : 1 ≤ c.patience) (s : St) (obs : Nat → Obs)
+    (hdec : ∀ i, (obs i).nodec = false) (hrej : ∀ i, (obs i).rej = false) (hbel : ∀ i, (obs i).below = false) :
+    ((optimize c St.init obs).1 : Int) = max 1 c.maxSteps ∧
+    ((icpForward c s obs).1 : Int) = max 1 c.maxSteps ∧
+    ((mpcForward c s obs).1 : Int) = max 1 c.maxSteps := by
+  have hno : ∀ p : Int, 1 ≤ p → ∀ i, ¬ patienceCause p obs i := by
+    intro p hp1 i h
+    rw [patienceCause_iff, trail_zero_of_last obs i (hdec i)] at h
+    omega
+  have key : ∀ m : Nat, 1 ≤ m →
+      (budgetCause c (m - 1) ∨ patienceCause c.patience obs (m - 1) ∨ False) →
+      (∀ i, i + 1 < m → ¬ (budgetCause c i ∨ patienceCause c.patience obs i ∨ False)) →
+      (m : Int) = max 1 c.maxSteps := by
+    intro m hm hc hbefore
+    have hb : budgetCause c (m - 1) := by
+      rcases hc with h | h | h
+      · exact h
+      · exact absurd h (hno c.patience hp (m - 1))
+      · exact absurd h id
+    unfold budgetCause at hb
+    by_cases hm1 : m = 1
+    · subst hm1; simp at hb; omega
+    · have := hbefore (m - 2) (by omega)
+      have hnb : ¬ budgetCause c (m - 2) := fun h => this (Or.inl h)
+      unfold budgetCause at hnb
+      have e1 : ((m - 1 + 1 : Nat) : Int) = m := by omega
+      have e2 : ((m - 2 + 1 : Nat) : Int) = m - 1 := by omega
+      rw [e1] at hb
+      rw [e2] at hnb
+      omega
+  refine ⟨?_, ?_, ?_⟩
+  · have h := optimize_count_first_cause c obs
+    apply key _ h.1
+    · rcases h.2.1 with a | a | a
+      · exact Or.inl a
+      · exact Or.inr (Or.inl a)
+      · simp [hrej] at a
+    · intro i hi hc
+      apply h.2.2 i hi
+      rcases hc with a | a | a
+      · exact Or.inl a
+      · exact Or.inr (Or.inl a)
+      · exact absurd a id
+  · have h := (icp_mpc_count_first_cause c 0 s obs).1
+    apply key _ h.1
+    · rcases h.2.1 with a | a | a
+      · exact Or.inl a
+      · exact Or.inr (Or.inl a)
+      · simp [hbel] at a
+    · intro i hi hc
+      apply h.2.2 i hi
+      rcases hc with a | a | a
+      · exact Or.inl a
+      · exact Or.inr (Or.inl a)
+      · exact absurd a id
+  · have h := (icp_mpc_count_first_cause c 0 s obs).2
+    simp only [mpcInitN] at h
+    apply key _ h.1
+    · rcases h.2.1 with a | a | a
+      · exact Or.inl a
+      · exact Or.inr (Or.inl a)
+      · simp [hbel] at a
+    · intro i hi hc
+      apply h.2.2 i hi
+      rcases hc with a | a | a
+      · exact Or.inl a
+      · exact Or.inr (Or.inl a)
+      · exact absurd a id
+
+/-- **Closed form, losses that never decrease.** If every step fails to decrease the loss by the configured amount and
+no immediate cause (rejection / below tol) occurs, every driver loop entered from the constructor state performs
+exactly `max 1 (min max_steps patience)` controller steps. -/
+theorem iterations_when_never_decreasing (c : Cfg) (s : St) (obs : Nat → Obs)
+    (hnd : ∀ i, (obs i).nodec = true) (hrej : ∀ i, (obs i).rej = false) (hbel : ∀ i, (obs i).below = false) :
+    ((optimize c St.init obs).1 : Int) = max 1 (min c.maxSteps c.patience) ∧
+    ((icpForward c s obs).1 : Int) = max 1 (min c.maxSteps c.patience) ∧
+    ((mpcForward c s obs).1 : Int) = max 1 (min c.maxSteps c.patience) := by
+  have hpc : ∀ i, patienceCause c.patience obs i ↔ c.patience ≤ ((i + 1 : Nat) : Int) := by
+    intro i
+    rw [patienceCause_iff, trail_all_nodec obs hnd]
+  have key : ∀ m : Nat, 1 ≤ m →
+      (budgetCause c (m - 1) ∨ patienceCause c.patience obs (m - 1) ∨ False) →
+      (∀ i, i + 1 < m → ¬ (budgetCause c i ∨ patienceCause c.patience obs i ∨ False)) →
+      (m : Int) = max 1 (min c.maxSteps c.patience) := by
+    intro m hm hc hbefore
+    have hb : c.maxSteps ≤ (m : Int) ∨ c.patience ≤ (m : Int) := by
+      have e1 : ((m - 1 + 1 : Nat) : Int) = m := by omega
+      rcases hc with h | h | h
+      · unfold budgetCause at h; rw [e1] at h; exact Or.inl h
+      · rw [hpc, e1] at h; exact Or.inr h
+      · exact absurd h id
+    by_cases hm1 : m = 1
+    · subst hm1; omega
+    · have := hbefore (m - 2) (by omega)
+      have e2 : ((m - 2 + 1 : Nat) : Int) = m - 1 := by omega
+      have hn1 : ¬ c.maxSteps ≤ (m : Int) - 1 := by
+        intro h; apply this; left; unfold budgetCause; rw [e2]; exact h
+      have hn2 : ¬ c.patience ≤ (m : Int) - 1 := by
+        intro h; apply this; right; left; rw [hpc, e2]; exact h
+      omega
+  refine ⟨?_, ?_, ?_⟩
+  · have h := optimize_count_first_cause c obs
+    apply key _ h.1
+    · rcases h.2.1 with a | a | a
+      · exact Or.inl a
+      · exact Or.inr (Or.inl a)
+      · simp [hrej] at a
+    · intro i hi hc
+      apply h.2.2 i hi
+      rcases hc with a | a | a
+      · exact Or.inl a
+      · exact Or.inr (Or.inl a)
+      · exact absurd a id
+  · have h := (icp_mpc_count_first_cause c 0 s obs).1
+    apply key _ h.1
+    · rcases h.2.1 with a | a | a
+      · exact Or.inl a
+      · exact Or.inr (Or.inl a)
+      · simp [hbel] at a
+    · intro i hi hc
+      apply h.2.2 i hi
+      rcases hc with a | a | a
+      · exact Or.inl a
+      · exact Or.inr (Or.inl a)
+      · exact absurd a id
+  · have h := (icp_mpc_count_first_cause c 0 s obs).2
+    simp only [mpcInitN] at h
+    apply key _ h.1
+    · rcases h.2.1 with a | a | a
+      · exact Or.inl a
+      · exact Or.inr (Or.inl a)
+      · simp [hbel] at a
+    · intro i hi hc
+      apply h.2.2 i hi
+      rcases hc with a | a | a
+      · exact Or.inl a
+      · exact Or.inr (Or.inl a)
+      · exact absurd a id
+
+/-- **Closed form, `k` decreasing steps followed by a plateau** (the typical run of ICP / MPC / an optimizer that
+converges): if exactly the first `k` steps decrease the loss by the configured amount and no later one does, no
+immediate cause occurs and `patience ≥ 1`, every driver loop entered from the constructor state performs exactly
+`max 1 (min max_steps (k + patience))` controller steps.  (`k = 0` is `iterations_when_never_decreasing`; letting
+`k ≥ max_steps` gives `iterations_when_always_decreasing`.) -/
+theorem iterations_when_plateau_after (c : Cfg) (hp : 1 ≤ c.patience) (k : Nat) (s : St) (obs : Nat → Obs)
+    (hnd : ∀ i, (obs i).nodec = decide (k ≤ i)) (hrej : ∀ i, (obs i).rej = false) (hbel : ∀ i, (obs i).below = false) :
+    ((optimize c St.init obs).1 : Int) = max 1 (min c.maxSteps (k + c.patience)) ∧
+    ((icpForward c s obs).1 : Int) = max 1 (min c.maxSteps (k + c.patience)) ∧
+    ((mpcForward c s obs).1 : Int) = max 1 (min c.maxSteps (k + c.patience)) := by
+  have hpc : ∀ i, patienceCause c.patience obs i ↔ (k : Int) + c.patience ≤ ((i + 1 : Nat) : Int) := by
+    intro i
+    rw [patienceCause_iff, trail_plateau_after obs k hnd]
+    omega
+  have key : ∀ m : Nat, 1 ≤ m →
+      (budgetCause c (m - 1) ∨ patienceCause c.patience obs (m - 1) ∨ False) →
+      (∀ i, i + 1 < m → ¬ (budgetCause c i ∨ patienceCause c.patience obs i ∨ False)) →
+      (m : Int) = max 1 (min c.maxSteps (k + c.patience)) := by
+    intro m hm hc hbefore
+    have hb : c.maxSteps ≤ (m : Int) ∨ (k : Int) + c.patience ≤ (m : Int) := by
+      have e1 : ((m - 1 + 1 : Nat) : Int) = m := by omega
+      rcases hc with h | h | h
+      · unfold budgetCause at h; rw [e1] at h; exact Or.inl h
+      · rw [hpc, e1] at h; exact Or.inr h
+      · exact absurd h id
+    by_cases hm1 : m = 1
+    · subst hm1; omega
+    · have := hbefore (m - 2) (by omega)
+      have e2 : ((m - 2 + 1 : Nat) : Int) = m - 1 := by omega
+      have hn1 : ¬ c.maxSteps ≤ (m : Int) - 1 := by
+        intro h; apply this; left; unfold budgetCause; rw [e2]; exact h
+      have hn2 : ¬ (k : Int) + c.patience ≤ (m : Int) - 1 := by
+        intro h; apply this; right; left; rw [hpc, e2]; exact h
+      omega
+  refine ⟨?_, ?_, ?_⟩
+  · have h := optimize_count_first_cause c obs
+    apply key _ h.1
+    · rcases h.2.1 with a | a | a
+      · exact Or.inl a
+      · exact Or.inr (Or.inl a)
+      · simp [hrej] at a
+    · intro i hi hc
+      apply h.2.2 i hi
+      rcases hc with a | a | a
+      · exact Or.inl a
+      · exact Or.inr (Or.inl a)
+      · exact absurd a id
+  · have h := (icp_mpc_count_first_cause c 0 s obs).1
+    apply key _ h.1
+    · rcases h.2.1 with a | a | a
+      · exact Or.inl a
+      · exact Or.inr (Or.inl a)
+      · simp [hbel] at a
+    · intro i hi hc
+      apply h.2.2 i hi
+      rcases hc with a | a | a
+      · exact Or.inl a
+      · exact Or.inr (Or.inl a)
+      · exact absurd a id
+  · have h := (icp_mpc_count_first_cause c 0 s obs).2
+    simp only [mpcInitN] at h
+    apply key _ h.1
+    · rcases h.2.1 with a | a | a
+      · exact Or.inl a
+      · exact Or.inr (Or.inl a)
+      · simp [hbel] at a
+    · intro i hi hc
+      apply h.2.2 i hi
+      rcases hc with a | a | a
+      · exact Or.inl a
+      · exact Or.inr (Or.inl a)
+      · exact absurd a id
+
+/-- **The closed form on real losses.** `ICP.forward` / `MPC.forward` on batches of positive real losses (constant batch
+size) in which at every step some element still decreases by at least the fraction `decreasing` of its new value and
+some element is still at or above `tol`: the loop runs for exactly `max 1 max_steps` controller steps — the budget is
+the only thing that stops a run that keeps improving (`patience ≥ 1`). -/
+theorem forwardNum_keeps_improving (c : Cfg) (hp : 1 ≤ c.patience) (d tol : ℝ) (s : RtbSt ℝ) (loss : Nat → List ℝ)
+    (B : Nat) (hB : ∀ i, (loss i).length = B) (hne : ∀ i, loss i ≠ []) (hpos : ∀ i, ∀ x ∈ loss i, 0 < x)
+    (himp : ∀ i, ∃ p ∈ List.zip (loss i) (loss (i+1)), d * p.2 ≤ p.1 - p.2)
+    (htol : ∀ i, ∃ x ∈ loss i, tol ≤ x) :
+    ((forwardNum c d tol s loss).1 : Int) = max 1 c.maxSteps := by
+  rw [(forwardNum_spec c d tol s loss B hB).1]
+  have hobs : ∀ i, obsOfLosses d tol none loss i = numObs d tol none loss i := by
+    intro i; cases i <;> rfl
+  have hnd : ∀ i, (obsOfLosses d tol none loss i).nodec = false := by
+    intro i
+    rw [hobs]
+    cases hh : (numObs d tol none loss i).nodec with
+    | false => rfl
+    | true =>
+      have hf := (numObs_nodec_iff d tol loss i).mp hh
+      cases i with
+      | zero =>
+        obtain ⟨x, hx⟩ : ∃ x, x ∈ loss 0 := List.exists_mem_of_ne_nil _ (hne 0)
+        have := hf x hx
+        have := hpos 0 x hx
+        linarith
+      | succ j =>
+        obtain ⟨p, hpm, hpd⟩ := himp j
+        have hfe := hf p hpm
+        have hx : 0 < p.2 := hpos (j+1) p.2 (List.of_mem_zip hpm).2
+        rcases hfe with ⟨_, h⟩ | ⟨h, _⟩ | ⟨h, _⟩ <;> linarith
+  have hbel : ∀ i, (obsOfLosses d tol none loss i).below = false := by
+    intro i
+    rw [hobs]
+    cases hh : (numObs d tol none loss i).below with
+    | false => rfl
+    | true =>
+      have hb : belowTol tol (loss i) = true := by simpa [numObs, rtbObs] using hh
+      obtain ⟨x, hx, hxt⟩ := htol i
+      have := (belowTol_iff tol (loss i)).mp hb x hx
+      linarith
+  have hrej : ∀ i, (obsOfLosses d tol none loss i).rej = false := by intro i; cases i <;> rfl
+  exact (iterations_when_always_decreasing c hp s.st _ hnd hrej hbel).2.1
+
+/-- **Histories of NaN losses stop on the budget only.** For tensors of one shape (any shape) each containing a NaN
+(any other values, any thresholds): no step raises, and `continual()` after `n` steps is true iff `patience ≥ 1` and the
+budget has not been reached — the patience count is reset by every step and "below tol" never holds. -/
+theorem nan_history_stops_on_budget_only (c : Cfg) (d tol : XF ℝ) (sh : Batch.Shape) (xs : Nat → List (XF ℝ))
+    (hlen : ∀ i, (xs i).length = Batch.numel sh) (hnan : ∀ i, XF.nan ∈ xs i) (n : Nat) :
+    ∃ s, rtbRunX c d tol RtbStX.init (fun i => ⟨sh, xs i⟩) n = some s ∧
+      (s.st.cont = true ↔ ∀ i, i < n → ¬ (budgetCause c i ∨ c.patience ≤ 0)) := by
+  obtain ⟨s, hs, _⟩ := constant_shape_never_raises c d tol (fun i => (⟨sh, xs i⟩ : TX ℝ)) sh (fun _ => rfl) n
+  obtain ⟨obs, hobs, _, _, hcont⟩ := rtbRunX_spec c d tol (fun i => (⟨sh, xs i⟩ : TX ℝ)) n s hs
+  refine ⟨s, hs, ?_⟩
+  have hob : ∀ i, i < n → obs i = ⟨false, false, false⟩ := by
+    intro i hi
+    have h := hobs i hi
+    cases i with
+    | zero =>
+      have := (nan_loss_resets_patience c d tol XF.pinf St.init sh (xs 0) (xs 0) (hlen 0) (hlen 0) (hnan 0)).1
+      simp only [lastOf] at h
+      rw [this] at h
+      exact (Option.some.inj h).symm
+    | succ j =>
+      have := (nan_loss_resets_patience c d tol XF.pinf St.init sh (xs j) (xs (j+1)) (hlen j) (hlen (j+1)) (hnan (j+1))).2.1
+      simp only [lastOf] at h
+      rw [this] at h
+      exact (Option.some.inj h).symm
+  rw [hcont]
+  constructor
+  · intro h i hi hc
+    apply h i hi
+    rcases hc with a | a
+    · exact Or.inl a
+    · exact Or.inr (Or.inl ((patienceCause_iff c.patience obs i).mpr (by
+        rw [trail_zero_of_last obs i (by rw [hob i hi])]; simpa using a)))
+  · intro h i hi hc
+    apply h i hi
+    rcases hc with a | a | a
+    · exact Or.inl a
+    · right
+      have := (patienceCause_iff c.patience obs i).mp a
+      rw [trail_zero_of_last obs i (by rw [hob i hi])] at this
+      simpa using this
+    · rw [hob i hi] at a; exact absurd a (by decide)
+
 /-! ## what the driver executes is the model the theorems are about -/
 
 /-- the executable trace on a list is the sequence of `run` states -/
@@ -821,5 +1124,21 @@ example : Batch.broadcastShapes [3, 1] [1, 3] = some [3, 3] ∧ Batch.broadcastS
 
 -- pass 7: a non-trivial instance of `tensor_continual_iff_real` (shape [2,3], mixed signs and a zero)
 example : ∀ i : Nat, ([1 / ((i : ℝ) + 1), -2, 0, 3, 4, 5] : List ℝ).length = Batch.numel [2, 3] := fun _ => rfl
+
+-- pass 10: the hypotheses of the closed forms / the NaN theorem are satisfiable; a concrete instance of each closed form
+example : (optimize ⟨7, 3⟩ St.init (fun _ => ⟨false, false, false⟩)).1 = 7 ∧
+    (icpForward ⟨7, 3⟩ ⟨4, 2, false⟩ (fun _ => ⟨true, false, false⟩)).1 = 3 ∧
+    (mpcForward ⟨2, 9⟩ St.init (fun _ => ⟨true, false, false⟩)).1 = 2 := by decide
+example : (icpForward ⟨200, 5⟩ St.init (fun i => ⟨decide (3 ≤ i), false, false⟩)).1 = 8 ∧
+    (optimize ⟨6, 5⟩ St.init (fun i => ⟨decide (3 ≤ i), false, false⟩)).1 = 6 := by decide
+-- halving losses, d = 1/2, tol = 0: the hypotheses of `forwardNum_keeps_improving` hold
+example : ∀ i : Nat, ∃ p ∈ List.zip [(1 / 2 : ℝ) ^ i, 3] [(1 / 2 : ℝ) ^ (i + 1), 3], (1 / 2 : ℝ) * p.2 ≤ p.1 - p.2 := by
+  intro i
+  refine ⟨((1 / 2 : ℝ) ^ i, (1 / 2 : ℝ) ^ (i + 1)), by simp, ?_⟩
+  have : (0 : ℝ) < (1 / 2 : ℝ) ^ i := by positivity
+  simp only [pow_succ]
+  nlinarith
+example : ∀ i : Nat, XF.nan ∈ ([XF.num (i : ℝ), XF.nan, XF.pinf] : List (XF ℝ)) ∧
+    ([XF.num (i : ℝ), XF.nan, XF.pinf] : List (XF ℝ)).length = Batch.numel [3] := fun _ => ⟨by simp, rfl⟩
 
 end PP.Stop
